@@ -773,7 +773,7 @@ func (w *world) nodeOp(r *xp.Req, resp *xp.Resp) {
 	case "node-add-concurrent":
 		// r.A clients, each making r.B insertion calls one after the other; call i of client a
 		// inserts Sizes[(a*B+i) % len] events (1 = RaftNode.Add, >1 = AddBulk); all clients run at once
-		resp.Acks = concurrentAdds(n, int(r.A), int(r.B), r.Args)
+		resp.Acks = concurrentAdds(n, int(r.A), int(r.B), r.Args, int(r.C))
 	case "node-stress":
 		resp.Emitted, resp.Bad = stress(n, r)
 	case "node-state":
@@ -922,10 +922,21 @@ func runQueries(n *consensus.RaftNode, qs []xp.Query, timeout time.Duration) []x
 // stress: concurrent adders and queriers on the public API (race tier of C10).
 // r.A adders each doing r.B adds (bulk size r.C), r.N queriers running until
 // the adders finish. Returns (#operations, #panics).
-func concurrentAdds(n *consensus.RaftNode, clients, calls int, sizes []string) []xp.Ack {
+func concurrentAdds(n *consensus.RaftNode, clients, calls int, sizes []string, backups int) []xp.Ack {
 	acks := make([]xp.Ack, clients*calls)
 	var wg sync.WaitGroup
 	start := make(chan struct{})
+	var done int32
+	if backups > 0 {
+		// an operator takes backups through the management API while clients insert
+		go func() {
+			<-start
+			for i := 0; i < backups && atomic.LoadInt32(&done) == 0; i++ {
+				n.CreateBackup()
+				time.Sleep(time.Millisecond)
+			}
+		}()
+	}
 	for a := 0; a < clients; a++ {
 		wg.Add(1)
 		go func(a int) {
@@ -971,6 +982,7 @@ func concurrentAdds(n *consensus.RaftNode, clients, calls int, sizes []string) [
 	}
 	close(start)
 	wg.Wait()
+	atomic.StoreInt32(&done, 1)
 	return acks
 }
 
